@@ -33,6 +33,9 @@ type Result struct {
 
 const settleHorizon = 4 * time.Hour
 
+// rootPhase names what the scheduler goroutine is doing when it calls into the library.
+var rootPhase = "set-up"
+
 // execute runs one scenario inside its own synctest bubble.
 func execute(sc *Scenario, keepLog bool) (res *Result) {
 	res = &Result{Seed: sc.Seed, Probes: map[string]int{}, Faults: map[string]int{}}
@@ -47,6 +50,14 @@ func execute(sc *Scenario, keepLog bool) (res *Result) {
 			msg := fmt.Sprint(x)
 			if strings.Contains(msg, "blocked goroutines remain") || strings.Contains(msg, "deadlock: main bubble goroutine has exited") {
 				return // leaks are judged by the leak oracle, from the task table
+			}
+			if strings.Contains(msg, "all goroutines in bubble are blocked") {
+				// a library call the harness makes on the scheduler goroutine
+				// itself (Config, a fresh stack, a shutdown step) blocked for
+				// good and no task can run: a call that never returns
+				res.Viol = append(res.Viol, Violation{Oracle: "stuck", Msg: "a library call made outside the tasks (" + rootPhase + ") never returned and nothing else can run: " + msg})
+				res.Reason = "root-blocked"
+				return
 			}
 			res.Infra = "panic outside the simulated tasks: " + msg
 		}
@@ -133,6 +144,7 @@ func runCore(sc *Scenario, res *Result, keepLog bool) {
 	r.defFP = render(r.defaults)
 	sources := r.buildSources()
 	r.phase = "config"
+	rootPhase = "Config"
 	raceConfig := sc.File != nil && sc.File.RaceConfig
 	doConfig := func() {
 		defer func() {
@@ -166,6 +178,7 @@ func runCore(sc *Scenario, res *Result, keepLog bool) {
 		s.AfterStep = r.observe
 		r.observe()
 		r.phase = "clients"
+		rootPhase = "clients phase"
 		r.spawnClients()
 		reason := s.Run(sc.MaxSteps, r.allClientsDone, time.Time{})
 		res.Reason = string(reason)
@@ -173,6 +186,7 @@ func runCore(sc *Scenario, res *Result, keepLog bool) {
 			r.probe("stepcap")
 		}
 		r.phase = "settle"
+		rootPhase = "settle phase"
 		if reason != simrt.StepCap {
 			settle := s.Run(sc.MaxSteps, nil, time.Now().Add(settleHorizon))
 			res.Reason += "/" + string(settle)
@@ -184,8 +198,10 @@ func runCore(sc *Scenario, res *Result, keepLog bool) {
 		}
 	}
 	r.phase = "shutdown"
+	rootPhase = "shutdown"
 	r.shutdown()
 	r.phase = "teardown"
+	rootPhase = "teardown"
 	close(r.never)
 	r.cancel()
 	for _, c := range r.named {
